@@ -13,6 +13,8 @@ Decided (structure of spifconf_shell_expand and the variable store):
   V6  the variable store: every early exit of the lookup loop is decided by the same ordering function that the
       insertion uses (strcmp), so lookup and insertion agree on the order
 Not decided: the value of the expansion (escape table, quoting, %put/%get semantics)."""
+import re
+
 from .. import facts, expr as X, nulcursor, nullness, flow
 from ..facts import walk
 from ..report import Check, canon
@@ -34,7 +36,7 @@ def run(tier="quick"):
                 explanation="cursor typestate over the input, write-or-retract dataflow over the output index, sibling agreement of the "
                             "bounded copies, effect set, ordering agreement of the variable store")
     for rid, txt in (("N1", "input cursor never passes the terminator"), ("V1", "every iteration writes position j or retracts j"),
-                     ("V2", "bounded copies: destination newbuff + j, size max - j"), ("V3", "result terminated at j"),
+                     ("V2", "bounded copies: destination newbuff + j, size max - j"), ("V3", "result terminated at j"), ("V4", "every indexed store into the result buffer is inside it"),
                      ("V5", "effects within the declared set"), ("V6", "lookup early exits use the insertion's ordering function")):
         chk.rule(rid, txt)
     prog = facts.extract(only=["conf.c"])
@@ -193,6 +195,37 @@ def run(tier="quick"):
                proof="every copy into %s is bounded by %s" % (base, sorted(ls)[0]))
     if delegated:
         chk.note("V1: %d iteration path(s) hand the result buffer and the output index to a static helper; the write is decided by V2 inside the helper" % len(delegated))
+    # ---- V4 every store into the result buffer through an index is inside it: GHOSTPOS over the output index (loop bound,
+    # in-body increments, MIN()-clamped advances) proves 0 <= index <= sizeof(buffer) - 1 at each store, in this build
+    # configuration (with DEBUG=0 the ASSERT that bounds the terminating store is compiled out: the thorough tier runs that too)
+    from ..ghostpos import GhostPos
+    from ..lin import Lin, entails
+    nbsize = None
+    vd = f.vardecls.get(nb, {})
+    m_ = re.search(r"\[(\d+)\]", (vd.get("tc") or "") + (vd.get("t") or ""))
+    if m_:
+        nbsize = int(m_.group(1))
+    n4 = 0
+    if nbsize:
+        g4 = GhostPos(f, prog, self_index=None)
+        g4.run([])
+
+        def v4(st, x, blk):
+            if x.get("k") == "assign":
+                l = X.strip(x["ch"][0])
+                if l.get("k") == "index" and X.strip(l["ch"][0]).get("d") == nb:
+                    e = g4.lin(l["ch"][1])
+                    # upper bound only: the index is unsigned; its single transient "-1" (retract at position 0, undone by the
+                    # loop increment before the next store) is V1's subject
+                    ok = e is not None and entails(list(st), Lin.const(nbsize - 1) - e)
+                    chk.ob("V4", f.name, "store-in-buffer:" + canon(f, x)[:40], ok, loc=f.loc(x),
+                           detail="%s stores %s where index <= %d is not provable (index %s; state %s): a byte can land outside the "
+                                  "%d-byte result buffer" % (f.name, X.render(x)[:40], nbsize - 1, e, " & ".join(sorted("%r>=0" % c for c in st))[:160], nbsize),
+                           proof="0 <= index <= %d entailed" % (nbsize - 1))
+        before = len(chk.obls)
+        g4.visit(v4)
+        n4 = len(chk.obls) - before
+    chk.count("indexed_result_stores", n4, floor=10)
     # ---- V3 terminator
     term = [n for n in walk(f.body) if n.get("k") == "assign" and X.const_val(n["ch"][1]) == 0 and X.strip(n["ch"][0]).get("k") == "index"
             and X.strip(X.strip(n["ch"][0])["ch"][0]).get("d") == nb and X.strip(X.strip(n["ch"][0])["ch"][1]).get("d") == jd]
